@@ -524,7 +524,7 @@ func first(a, _ []byte) []byte { return a }
 //@     invariant depth <= idx && forall(i, depth, idx, key[i] == other[i]) && implies(depth <= maxCmp, idx <= maxCmp) && implies(depth > maxCmp, idx == depth)
 //@     decreases maxCmp - idx
 
-//@ spec NodeOK(o) = implies(atype(o) == typeid(node4), Inv4(as(node4, o)) && (as(node4, o).childrenLen >= 2 || Zero4(as(node4, o)))) && implies(atype(o) == typeid(node16), Inv16(as(node16, o)) && (as(node16, o).childrenLen >= 4 || Zero16(as(node16, o)))) && implies(atype(o) == typeid(node48), Inv48(as(node48, o)) && (as(node48, o).childrenLen >= 13 || Zero48(as(node48, o)))) && implies(atype(o) == typeid(node256), Inv256(as(node256, o)) && (cntP(as(node256, o).children, 256) >= 38 || Zero256(as(node256, o))))
+//@ spec NodeOK(o) = implies(atype(o) == typeid(node4), Zero4(as(node4, o)) || (Inv4(as(node4, o)) && as(node4, o).childrenLen >= 2)) && implies(atype(o) == typeid(node16), Zero16(as(node16, o)) || (Inv16(as(node16, o)) && as(node16, o).childrenLen >= 4)) && implies(atype(o) == typeid(node48), Zero48(as(node48, o)) || (Inv48(as(node48, o)) && as(node48, o).childrenLen >= 13)) && implies(atype(o) == typeid(node256), Zero256(as(node256, o)) || (Inv256(as(node256, o)) && cntP(as(node256, o).children, 256) >= 38))
 //@ spec rootOK(r) = r.pointer == nil || okRef(r)
 
 //@ spec LeafOK_alpha(o) = as(alphaLeafNode, o).key.obj != nil && allocated(as(alphaLeafNode, o).key.obj) && 0 <= as(alphaLeafNode, o).key.idx && as(alphaLeafNode, o).key.idx + as(alphaLeafNode, o).len <= blen(as(alphaLeafNode, o).key.obj)
